@@ -30,7 +30,9 @@ def gen(rng, tier, no, wide=False):
     r = rng.random()
     if r < 0.45:
         case = CP.gen_cp_case(rng)
-        case["params"].update({"mode": "overlay", "gz": rng.random() < 0.5})
+        # what-if first (a third of the overlay cases): the weight of the heaviest critical span edges is cut and the
+        # path recomputed on the same graph object before anything is drawn
+        case["params"].update({"mode": "overlay", "gz": rng.random() < 0.5, "what_if": rng.random() < 0.35})
     elif r < 0.75:
         case = G.gen_case(rng, memcpy_rate=rng.choice([0.0, 0.2, 0.4]))
         ranks = sorted(case["ranks"])
@@ -134,6 +136,15 @@ def _observe_overlay(case):
             return {"canon": {"mode": "overlay", "ok": False}}
         g = res[0]
         canon["ok"] = True
+        if p.get("what_if"):
+            crit = sorted(zip(g.critical_path_nodes, g.critical_path_nodes[1:]), key=lambda uv: -g.edges[uv]["weight"])
+            for u, v in crit[: max(1, len(crit) // 3)]:
+                g.edges[u, v]["weight"] = g.edges[u, v]["weight"] // 10
+            try:
+                if not g.critical_path():
+                    return {"canon": {"mode": "overlay", "ok": False}}
+            except Exception as e:  # noqa: BLE001
+                return {"canon": {"mode": "overlay", "ok": "raises " + C.exc_name(e)}}
         src_doc, _ = _read_any(files[p["rank"]])
         src = src_doc["traceEvents"]
         it = _Intern()
